@@ -29,9 +29,9 @@ CFG = {
     theorems=[P+"C04", P+"C04_some_direction", P+"C04_start_held"],
     text="Theorems (all pairs of hashed real trees: any contents, spans nested / partially overlapping / disjoint / empty, any level structure): both diffs empty implies equal content; if contents differ some direction reports a range; every reported range starts at a key the peer holds. Tied by exhaustive ordered-pair streams (all contents over 4-5 keys x all level assignments) and the implementation-side oracle.",
     assumptions=[A_TOTAL, A_LVL, A_CF, A_MODEL]),
- "C05": dict(streams=S("dsmall","drand"), level="translation_validation", theorems=[],
+ "C05": dict(streams=S("dsmall","drand","srand"), level="translation_validation", theorems=[],
     text="(being proved) model tied by exhaustive pair streams + implementation oracle.", assumptions=[A_MODEL]),
- "C06": dict(streams=S("dsmall","drand"), level="translation_validation", theorems=[],
+ "C06": dict(streams=S("srand","drand"), level="translation_validation", theorems=[],
     text="(being proved) model tied by pair streams.", assumptions=[A_MODEL]),
  "C07": dict(streams=S("dsmall","drand"), level="proof",
     theorems=[P+"C07", P+"C07_empty_local"],
@@ -73,7 +73,7 @@ CFG = {
     theorems=[P+"C16_roundtrip", P+"C16_diff"],
     text="PARTIAL. Theorems: rebuilding ranges from accessor values never panics and yields equal ranges; diff is the same in either argument position. 'A snapshot keeps describing the tree as it was' is ownership, true by construction in a functional model: modelled, not proved; decided by the harness (borrowed vs PageRangeSnapshot vs rebuilt diffs compared on every tree pair).",
     assumptions=[A_TOTAL, A_MODEL, "snapshot isolation (ownership) is not expressible in the functional model"]),
- "C17": dict(streams=S("tsmall","tmid","trand"), level="proof",
+ "C17": dict(streams=S("vsmall","tsmall","tmid","trand"), level="proof",
     theorems=[P+"C17_iter", P+"C17_stop", P+"C17_stop_prefix", P+"C17_protocol_page", P+"C17_protocol_node"],
     text="Theorems (every tree, every visitor, every stop index): the node iterator yields exactly the visit_node sequence; a visitor sees exactly the full callback sequence cut after the first false; the nesting protocol is the (6-line) definition of the trace, tied to the code by comparing every callback sequence incl. early stops, and checked independently by a grammar parser on the implementation side.",
     assumptions=[A_MODEL]),
